@@ -88,3 +88,20 @@ Theorem C08_source_functional_methods :
   methods_of "FunctionalSequence<T> for Box<GenericArray<T,N>>" = Some [].
 Proof. repeat split. Qed.
 
+
+(* ---- T1: the one-expression bodies this property's code consists of besides the modelled core, as they stand
+        in the source now (coq/gen/GenSigs.v gen_thin_bodies) ---- *)
+From Coq Require Import String.
+From GA Require Import SigTie.
+From GAGen Require Import GenSigs.
+Local Open Scope string_scope.
+
+Theorem C08_source_thin_bodies :
+  thin_of "FunctionalSequence<T> for GenericArray<T,N>" "zip" = Some "rhs . inverted_zip (self , f)" /\
+  thin_of "Default for GenericArray<T,N>" "default" = Some "Self :: generate (| _ | T :: default ())" /\
+  thin_of "Clone for GenericArray<T,N>" "clone" = Some "self . map (Clone :: clone)" /\
+  thin_of "trait GenericSequence" "inverted_zip2" = Some "FromIterator :: from_iter (lhs . into_iter () . zip (self) . map (| (l , r) | f (l , r)))" /\
+  thin_of "trait FunctionalSequence" "map" = Some "FromIterator :: from_iter (self . into_iter () . map (f))" /\
+  thin_of "trait FunctionalSequence" "zip" = Some "rhs . inverted_zip2 (self , f)" /\
+  thin_of "trait FunctionalSequence" "fold" = Some "self . into_iter () . fold (init , f)".
+Proof. repeat split. Qed.
